@@ -249,6 +249,25 @@ class C04Refine(Harness):
                         got = got + env.num(v) * env.num(v)
                     env.prove_eq("sum of squares of the residual handed to the optimiser = squared deviation of the candidate over "
                                  "the fitted region", got, own)
+                if env.mode == "float" and cfg.get("proto"):
+                    # confirmation scenario for the loss obligation, on the real package: two close droplets with intensities
+                    # 0..50 on 24 cells; the candidate is first brought to the least-squares optimum with the loss given
+                    # explicitly (twice, so that the fitted region is that of the optimum), then refined with the defaults
+                    import pde as _pde
+                    from scipy import ndimage as _ndi3
+                    g24 = _pde.CartesianGrid([(0, 24)], [24])
+                    xs = g24.cell_coords[:, 0]
+                    for sep in (5.5, 6.5, 7.5):
+                        pr = lambda cc_, rr_: 0.5 + 0.5 * env.np.tanh((rr_ - abs(xs - cc_)) / 1.0)
+                        img24 = _pde.ScalarField(g24, 50 * env.np.clip(pr(9.0, 3.0) + pr(9.0 + sep, 2.0), 0, 1))
+                        best = env.D.DiffuseDroplet([9.3], 2.7, 1.0)
+                        for _ in range(2):
+                            best = env.IA.refine_droplet(img24, best.copy(), vmin=0, vmax=50, least_squares_params={"loss": "linear"})
+                        again = env.IA.refine_droplet(img24, best.copy(), vmin=0, vmax=50)
+                        m24 = _ndi3.binary_dilation(best._get_phase_field(g24, dtype=bool), iterations=1 + int(2 * best.interface_width))
+                        dv = lambda d_: float(env.np.sum((50 * d_._get_phase_field(g24)[m24] - img24.data[m24]) ** 2))
+                        env._rec("refinement minimises the squared deviation over the fitted region, which does not increase",
+                                 dv(again) <= dv(best) * (1 + 1e-7) + 1e-9, f"two-droplet scenario, separation {sep}: {dv(again)!r} > {dv(best)!r}")
                 # the returned droplet carries exactly the optimiser's result in its free parameters
                 flat = [env.num(x) for x in res.position] + [env.num(res.radius), env.num(res.interface_width)] + \
                     [env.num(a) for a in getattr(res, "amplitudes", [])]
